@@ -45,6 +45,18 @@ Streams
                        field, the equal of a fresh build with that field), never carries a hash that
                        is not the hash of its fields, and leaves the original alone
 
+  class-hierarchies    (oracle only) node classes declared AT RUN TIME, a fresh hierarchy per case
+                       (harness/c01_hier.py): below a stock decorated node / the library's own
+                       undecorated subclass (MultiVectorVariable) / a user class of any kind /
+                       Expression itself, up to four levels, each level plain, re-declaring the
+                       parent's init args, adding init args, pinning one, or decorated; sometimes two
+                       classes of one name.  A history first uses the classes in some order (every
+                       chain of kinds top-down, bottom-up and shuffled; random trees), then the whole
+                       pool is judged pairwise: `==` exactly for same class and pairwise-equal init
+                       arguments (read off the input), `!=`, equal => equal hash / interchangeable
+                       key, unequal => kept apart, whatever class was hashed or compared first
+                       (per-class state of the library outlives the instances)
+
 Oracles (independent of the code under test): `harness/c01_classes.struct_eq` is the property's own
 sentence ("same node class and pairwise-equal fields") written with `type(a) is type(b)` and
 `dataclasses.fields` / the init args; reflexivity, symmetry, transitivity; equal ⇒ equal hash;
@@ -2585,6 +2597,313 @@ class PostInitStream(Stream):
 
 
 
+# ---- class hierarchies declared at run time, histories of FIRST USES per class ---------------------------
+
+from .. import c01_hier as H  # noqa: E402
+
+NEW_FIELD_VALUES = [1, 2, 1.0, True, 0, "s", "t", None, X, Y, (X, 1), p.Sum((X, 1))]
+HIER_CLASS_NAMES = ["Tagged", "Scoped", "Sym", "Node", "Typed", "Marked"]
+HIER_OPS = ["hash", "hash", "eq", "eq", "ne", "in", "get", "set"]
+
+
+def hier_roots():
+    """{group: [root classes]}: stock decorated nodes, the library's own UNDECORATED subclasses of
+    decorated nodes (MultiVectorVariable), the harness's user classes of every kind, and Expression
+    itself (a purely legacy hierarchy)"""
+    import pymbolic.geometric_algebra.primitives  # noqa: F401
+    groups = {"stock": [], "stock-undecorated": [], "user": [], "Expression": [p.Expression]}
+    for c in C.all_expression_classes():
+        if special_instances(c) is not None or any(
+                k.__name__ in OWN_INIT_ARGS and k.__module__.startswith("pymbolic.") for k in c.__mro__):
+            continue
+        if C.decorated_base(c) is None and c.__module__.startswith("pymbolic."):
+            continue        # abstract undecorated bases without init args
+        if not instances(c):
+            continue
+        if not c.__module__.startswith("pymbolic."):
+            groups["user"].append(c)
+        elif "_is_expr_dataclass" in c.__dict__:
+            groups["stock"].append(c)
+        else:
+            groups["stock-undecorated"].append(c)
+    return groups
+
+
+def hier_kinds_below(root, parent_kinds):
+    """the declaration kinds possible below a class reached from `root` through `parent_kinds`"""
+    names = len(H.root_names(root))
+    dc = H.dataclass_path(root)
+    for k in parent_kinds:
+        if k in ("extra", "fixed"):
+            dc = False
+        names += {"extra": 1, "fixed": -1}.get(k, 0)
+    if root is p.Expression and not parent_kinds:
+        return ["extra"]
+    out = ["plain", "redeclared", "extra"]
+    if names > 0:
+        out.append("fixed")
+    if dc:
+        out.append("decorated")
+    return out
+
+
+def hier_chains(root, depth):
+    """every chain of declaration kinds of length 1..depth below `root`"""
+    res, frontier = [], [[]]
+    for _ in range(depth):
+        nxt = []
+        for ch in frontier:
+            for k in hier_kinds_below(root, ch):
+                nxt.append(ch + [k])
+        res += nxt
+        frontier = nxt
+    return res
+
+
+def hier_classes(rng, root, parents, kinds):
+    """class records for the given parent indices / kinds: names (now and then one name used twice,
+    or the root's own name), new field names, how the new attributes are stored and read"""
+    out = []
+    for i, (par, kind) in enumerate(zip(parents, kinds)):
+        r = rng.random()
+        if r < 0.12 and out:
+            name = rng.choice(out)["name"]
+        elif r < 0.2 and root is not p.Expression:
+            name = root.__name__
+        else:
+            name = f"{rng.choice(HIER_CLASS_NAMES)}{i}"
+        c = {"name": name, "parent": par, "kind": kind, "new": []}
+        if kind == "extra":
+            c["new"] = [f"t{i}"] + ([f"s{i}"] if rng.random() < 0.25 else [])
+        elif kind == "decorated":
+            c["new"] = [] if rng.random() < 0.2 else [f"d{i}"] + ([f"e{i}"] if rng.random() < 0.2 else [])
+        if kind in ("extra", "fixed", "redeclared"):
+            c["store"] = rng.choice(["plain", "object"])
+            c["read"] = "delegate" if not root.__module__.startswith("pymbolic.") else rng.choice(
+                ["attrs", "delegate"])
+        out.append(c)
+    return out
+
+
+def hier_case(rng, root, classes, order=None):
+    """payload for the hierarchy: a pool with, per class, a base instance built from ONE shared
+    assignment of values to field names (so instances of different classes with the same fields
+    exist), a separately built twin, and instances differing from the base in exactly one field
+    (always including the class's own last init arg); a history of first uses in `order` (class
+    indices, -1 = the root; default: a random prefix of a random permutation) and a few more
+    operations anywhere"""
+    rnames = list(H.root_names(root))
+    env, root_base = {}, None
+    if root is not p.Expression:
+        root_base = rng.choice(instances(root))
+        vals = C.fields_of(root_base)
+        if len(vals) != len(rnames):
+            return None
+        env.update(zip(rnames, vals))
+    pl = {"root": H.root_spec(root), "classes": classes, "insts": [], "ops": []}
+    # constants of `fixed` classes come from the candidates of the field they pin down
+    try:
+        for i, c in enumerate(classes):
+            if c["kind"] == "fixed" and "fixed" not in c:
+                c["fixed"] = obj_s(1)       # placeholder so that layout can run
+        _, _, names = H.layout(pl)
+    except ValueError:
+        return None
+    for i, c in enumerate(classes):
+        if c["kind"] == "fixed":
+            pn = rnames if c["parent"] < 0 else names[c["parent"]]
+            c["fixed"] = obj_s(rng.choice(hier_values(root, rnames, pn[-1])))
+        for n in c["new"]:
+            env[n] = rng.choice(NEW_FIELD_VALUES)
+    insts = []
+    for ci in range(-1, len(classes)):
+        if ci < 0 and (root is p.Expression or rng.random() < 0.25):
+            continue
+        ns = rnames if ci < 0 else names[ci]
+        base = [env[n] for n in ns]
+        insts.append({"cls": ci, "args": [obj_s(v) for v in base]})
+        if rng.random() < 0.85:
+            tw = [dumps(eq_variant(rng, C.obj_to_sx(v), 0.3)) if rng.random() < 0.3 else obj_s(v)
+                  for v in base]
+            insts.append({"cls": ci, "args": tw})
+        pos = set()
+        if ns:
+            pos.add(len(ns) - 1)
+            if rng.random() < 0.6:
+                pos.add(rng.randrange(len(ns)))
+        for k in sorted(pos):
+            cands = [w for w in hier_values(root, rnames, ns[k])
+                     if not C.struct_eq(w, base[k]) and not C.has_list(w) and not C.has_nan_const(w)]
+            if not cands:
+                continue
+            args = list(base)
+            args[k] = rng.choice(cands)
+            if ns[k] in rnames and root is not p.Expression and build(
+                    root, [args[ns.index(n)] if n in ns else env[n] for n in rnames]) is None:
+                continue
+            insts.append({"cls": ci, "args": [obj_s(v) for v in args]})
+    if not insts:
+        return None
+    if rng.random() < 0.5:
+        rng.shuffle(insts)      # the final pairwise pass goes through the pool in pool order
+    pl["insts"] = insts
+    present = sorted({it["cls"] for it in insts})
+    if order is None:
+        order = list(present)
+        rng.shuffle(order)
+        order = order[:rng.randint(0, len(order))]
+        extra_ops = rng.randint(0, 4)
+    else:
+        extra_ops = 0
+    ops = []
+    for ci in order:
+        mine = [k for k, it in enumerate(insts) if it["cls"] == ci]
+        if not mine:
+            continue
+        for _ in range(1 if extra_ops == 0 else rng.randint(1, 2)):
+            kind = rng.choice(HIER_OPS)
+            i = rng.choice(mine)
+            j = rng.choice(mine) if rng.random() < 0.8 else rng.randrange(len(insts))
+            ops.append([kind, i] if kind == "hash" else [kind, i, j])
+    for _ in range(extra_ops):
+        kind = rng.choice(HIER_OPS)
+        i, j = rng.randrange(len(insts)), rng.randrange(len(insts))
+        ops.append([kind, i] if kind == "hash" else [kind, i, j])
+    pl["ops"] = ops
+    return pl
+
+
+def hier_values(root, rnames, name):
+    """candidate values of the field `name`: the root's own candidates for its fields, the shared
+    list for fields introduced below it"""
+    if name in rnames and root is not p.Expression:
+        return [w for w in candidates(root, name, rnames.index(name)) if not isinstance(w, list)]
+    return NEW_FIELD_VALUES
+
+
+class HierarchyStream(Stream):
+    """Node classes declared at run time below every kind of root (stock decorated node, the
+    library's own undecorated subclass, user classes decorated / legacy / mixed, Expression), each
+    level plain / re-declaring the parent's init args / adding init args / pinning one / decorated;
+    chains and small trees up to four levels, now and then two classes of one name.  A history first
+    uses the classes in some order (hash, ==, !=, dict / set membership of instances of ONE class,
+    sometimes across classes); then the whole pool is judged pairwise.  Oracle (harness/c01_hier.py):
+    every answer is the property's — `==` exactly for the same class and pairwise-equal init
+    arguments (read off the input), `!=` its negation, equal ⇒ equal hash and interchangeable as
+    key, unequal ⇒ kept apart by dict / set, hashes stable — WHATEVER class of the hierarchy was
+    used first.  Keys `hier-<what>:<dataclass|legacysub|legacy>` (the backend the declarations of the
+    left instance's class call for; the detail gives the declaration kinds up to the nearest
+    decorated class or the root, and says whether the same instances alone are judged fine on a
+    fresh declaration of the classes, i.e. whether the answer depends on the history)."""
+    name = "class-hierarchies"
+    has_model = False
+
+    def cases(self, rng, tier):
+        groups = hier_roots()
+        self.dropped = 0
+        seen = set()
+
+        def emit(pl):
+            if pl is None:
+                self.dropped += 1
+                return None
+            key = json.dumps(pl, sort_keys=True)
+            if key in seen:
+                return None
+            seen.add(key)
+            return pl
+
+        # directed: every chain of declaration kinds below representative roots, the classes first
+        # used top-down, bottom-up and in a random order
+        by_name = {c.__name__: c for g in groups.values() for c in g}
+        reps = [by_name[n] for n in ("Variable", "Sum", "Call", "MultiVectorVariable", "Expression",
+                                     "DMid", "MAlias", "MExtra", "LBase") if n in by_name]
+        depth_all, n_deep = (2, 260) if tier == "quick" else (3, 2400)
+        for root in reps:
+            chains = hier_chains(root, depth_all)
+            deeper = [ch for ch in hier_chains(root, depth_all + 1) if len(ch) == depth_all + 1]
+            rng.shuffle(deeper)
+            chains += deeper[:n_deep // len(reps)]
+            for ch in chains:
+                n = len(ch)
+                idx = list(range(-1, n)) if root is not p.Expression else list(range(n))
+                perm = list(idx)
+                rng.shuffle(perm)
+                for order in (idx, idx[::-1], perm):
+                    classes = hier_classes(rng, root, list(range(-1, n - 1)), ch)
+                    pl = emit(hier_case(rng, root, classes, order))
+                    if pl is not None:
+                        yield pl
+        # random: any root, chains and small trees
+        n_rand = 500 if tier == "quick" else 6000
+        weights = [("stock", 0.4), ("stock-undecorated", 0.15), ("user", 0.25), ("Expression", 0.2)]
+        for _ in range(n_rand):
+            r, acc_w, grp = rng.random(), 0.0, "stock"
+            for g, wgt in weights:
+                acc_w += wgt
+                if r < acc_w:
+                    grp = g
+                    break
+            if not groups[grp]:
+                grp = "stock"
+            root = rng.choice(groups[grp])
+            n = rng.randint(1, 4)
+            parents, kinds = [], []
+            for i in range(n):
+                par = i - 1 if rng.random() < 0.6 else rng.randint(-1, i - 1)
+                chain, q = [], par
+                while q >= 0:
+                    chain.append(kinds[q])
+                    q = parents[q]
+                allowed = hier_kinds_below(root, chain[::-1])
+                wts = [{"plain": 3, "redeclared": 1, "extra": 4, "fixed": 1, "decorated": 2}[k] for k in allowed]
+                parents.append(par)
+                kinds.append(rng.choices(allowed, wts)[0])
+            pl = emit(hier_case(rng, root, hier_classes(rng, root, parents, kinds)))
+            if pl is not None:
+                yield pl
+
+    def request(self, pl):
+        return "(noop)"
+
+    def run_impl(self, pl):
+        return H.summary(pl)
+
+    def oracle(self, pl):
+        return H.oracle(pl)
+
+    def shrink(self, pl):
+        return H.shrink(pl)
+
+    def nontrivial_key(self, pl, model, impl):
+        return json.dumps(pl, sort_keys=True) if impl.startswith("(built") else None
+
+    def stats(self, pl, mo, io, acc):
+        if not io.startswith("(built"):
+            d = acc.setdefault("cannot_be_built", {})
+            d[io] = d.get(io, 0) + 1
+            return
+        acc["specs_dropped_at_generation"] = getattr(self, "dropped", 0)
+        sh = acc.setdefault("shapes", {})       # a class's kind < its parent's kind (or the root's)
+        for ci in sorted({it["cls"] for it in pl["insts"] if it["cls"] >= 0}):
+            s = "<".join(H.shape(pl, ci).split("<")[:2])
+            sh[s] = sh.get(s, 0) + 1
+        dp = acc.setdefault("depth", {})
+        d = str(max(len(H.shape(pl, ci).split("<")) for ci in range(len(pl["classes"]))))
+        dp[d] = dp.get(d, 0) + 1
+        r = acc.setdefault("roots", {})
+        tag = H.root_tag(H.resolve_root(pl["root"]))
+        r[tag] = r.get(tag, 0) + 1
+        first = next((o for o in pl["ops"]), None)
+        fu = acc.setdefault("first_used", {})
+        if first is None:
+            k = "no-history"
+        else:
+            ci = pl["insts"][first[1]]["cls"]
+            k = "root" if ci < 0 else pl["classes"][ci]["kind"]
+        fu[k] = fu.get(k, 0) + 1
+
+
 def extract_postinit(ctx=None):
     from extract.postinit import extract_postinit as ex
     return ex(ctx)
@@ -2598,10 +2917,11 @@ def extract(ctx=None):
 PROP = Prop(
     id="C01",
     title="Expression nodes: structural equality, consistent hashing, immutability",
-    lean_targets=["PV.Properties.C01"],
+    lean_targets=["PV.Properties.C01", "PV.Properties.C01Hier"],
     extractors=[extract, extract_postinit],
     streams=[StockTriples(), TableTriples(), OwnEqStream(), RationalInitStream(), FrozenStream(),
-             HistoryStream(), ModeStream(), CrossProcessStream(), CopyStream(), PostInitStream()],
+             HistoryStream(), ModeStream(), CrossProcessStream(), CopyStream(), PostInitStream(),
+             HierarchyStream()],
     probes=[probe_known],
     trusted_base=[
         "Lean 4.33 kernel; axioms propext, Classical.choice, Quot.sound only",
